@@ -85,6 +85,7 @@ def path_field(shape, c):
 # ---- file-type entries: arity, size, checksum pairs, path validity --------------------------
 def k_file_entry(tag: int, nfields: int, shape: int, c: str, size_ok: bool, size_val: int,
                  ck1: int, ck2: int, v1: str):
+    ck1, ck2 = sym.pick_index(ck1, len(CKNAMES)), sym.pick_index(ck2, len(CKNAMES))
     t = FILE_TAGS[tag]
     pf = path_field(shape, c)
     fields = [t, pf, 'SIZE', CKNAMES[ck1], v1, CKNAMES[ck2], 'ab12'][:1 + nfields]
@@ -244,6 +245,8 @@ def conditions(tier):
             if not full and tag not in (0, 4, 5) and shape > 2:
                 continue
             fx = {'tag': tag, 'shape': shape}
+            if not full:
+                fx['ck2'] = 1       # quick: second checksum name fixed, first symbolic
             cs.append(Cond(
                 f'file_entry_{FILE_TAGS[tag]}_s{shape}', specialise(k_file_entry, **fx),
                 specialise(k_file_entry_pre, **fx), timeout=600, group='entry',
